@@ -196,11 +196,11 @@ func runC11Visit(c *Ctx) {
 		f := nodeT.Field(i)
 		switch t := f.Type().Underlying().(type) {
 		case *types.Array:
-			fEntries = f.Name()
+			fEntries = canonFieldName(f)
 			entryT, _ = t.Elem().Underlying().(*types.Struct)
 		case *types.Basic:
 			if t.Info()&types.IsInteger != 0 {
-				fNum = f.Name()
+				fNum = canonFieldName(f)
 			}
 		}
 	}
@@ -210,12 +210,12 @@ func runC11Visit(c *Ctx) {
 			f := entryT.Field(i)
 			switch t := f.Type().Underlying().(type) {
 			case *types.Struct:
-				fBox = f.Name()
+				fBox = canonFieldName(f)
 			case *types.Pointer:
-				fChild = f.Name()
+				fChild = canonFieldName(f)
 			case *types.Basic:
 				if t.Info()&types.IsInteger != 0 {
-					fRec = f.Name()
+					fRec = canonFieldName(f)
 				}
 			}
 		}
@@ -325,9 +325,9 @@ func runC11Visit(c *Ctx) {
 		for i := 0; i < qt.NumFields(); i++ {
 			switch qt.Field(i).Type().Underlying().(type) {
 			case *types.Slice:
-				qEntries = qt.Field(i).Name()
+				qEntries = canonFieldName(qt.Field(i))
 			case *types.Struct:
-				qOrigin = qt.Field(i).Name()
+				qOrigin = canonFieldName(qt.Field(i))
 			}
 		}
 	}
